@@ -8,6 +8,7 @@ package absnfs
 import (
 	"container/list"
 	"os"
+	"strings"
 	"sync"
 	"sync/atomic"
 	"time"
@@ -299,6 +300,25 @@ func (c *AttrCache) Invalidate(path string) {
 
 	c.removeFromAccessLog(path)
 	delete(c.cache, path)
+}
+
+// InvalidateSubtree removes the entry for path and every entry below it.
+// Used when a directory is renamed: cached entries of its descendants (positive
+// and negative) describe paths that no longer exist.
+func (c *AttrCache) InvalidateSubtree(path string) {
+	c.mu.Lock()
+	defer c.mu.Unlock()
+
+	prefix := path
+	if !strings.HasSuffix(prefix, "/") {
+		prefix += "/"
+	}
+	for p := range c.cache {
+		if p == path || strings.HasPrefix(p, prefix) {
+			c.removeFromAccessLog(p)
+			delete(c.cache, p)
+		}
+	}
 }
 
 // Clear removes all entries from the cache
@@ -617,6 +637,23 @@ func (c *DirCache) Invalidate(path string) {
 
 	c.removeFromAccessList(path)
 	delete(c.entries, path)
+}
+
+// InvalidateSubtree removes the listing of path and of every directory below it.
+func (c *DirCache) InvalidateSubtree(path string) {
+	c.mu.Lock()
+	defer c.mu.Unlock()
+
+	prefix := path
+	if !strings.HasSuffix(prefix, "/") {
+		prefix += "/"
+	}
+	for p := range c.entries {
+		if p == path || strings.HasPrefix(p, prefix) {
+			c.removeFromAccessList(p)
+			delete(c.entries, p)
+		}
+	}
 }
 
 // Clear removes all entries from the cache
